@@ -19,6 +19,7 @@ import (
 	quic "github.com/refraction-networking/uquic"
 	"github.com/refraction-networking/uquic/internal/verifmc/explore"
 	"github.com/refraction-networking/uquic/internal/verifmc/sim"
+	"github.com/refraction-networking/uquic/internal/verifmc/wiremon"
 	"github.com/refraction-networking/uquic/internal/verifmc/wireobs"
 	tls "github.com/refraction-networking/utls"
 )
@@ -579,6 +580,11 @@ func c12Run(t *testing.T, cfg c12Config) c12Outcome {
 		}
 		cleanup(sc)
 		wg.Wait()
+		// passive wire monitor: in particular, the in-tree server as a sender must stay within the
+		// limits the client put on the wire (read from the ClientHello by the monitor itself)
+		for _, f := range wiremon.Analyze(w.Router.FullLog(), w.KeyLog.Lines(), wiremon.Params{}).Findings {
+			fail(f.Key, "%s", f.What)
+		}
 	})
 	if !ok && out.fail == nil {
 		fail("bubble-failed", "bubble did not terminate cleanly")
